@@ -530,7 +530,28 @@ op("construct", "from_aggregator", _from_agg, params=_p_agg, combine=True, accum
 @st.composite
 def _p_ttv(draw, tier, shape, vkind, case):
     N = len(shape)
-    form = draw(st.sampled_from(["int", "dims", "dims", "exclude", "all", "full-list"]))
+    form = draw(st.sampled_from(["int", "dims", "dims", "exclude", "all", "full-list", "cancel", "cancel"]))
+    if form == "cancel":
+        # two stored entries of one fibre whose contributions cancel exactly: the result must not keep the 0
+        subs, vals = case["a"]["subs"], case["a"]["vals"]
+        pairs = [(i, j, [m for m in range(N) if subs[i][m] != subs[j][m]])
+                 for i in range(len(subs)) for j in range(i + 1, len(subs))]
+        pairs = [(i, j, diff[0]) for i, j, diff in pairs if len(diff) == 1]
+        if N >= 2 and pairs:
+            i, j, d = pairs[draw(st.integers(0, len(pairs) - 1))]
+            keep = draw(st.sampled_from([m for m in range(N) if m != d]))
+            rest = [m for m in range(N) if m != keep]
+            vecs = []
+            for m in rest:
+                v = fl(draw, shape[m], vkind)
+                if m == d:
+                    v[subs[i][d]] = vals[j]
+                    v[subs[j][d]] = -vals[i]
+                else:
+                    v[subs[i][m]] = 1.0
+                vecs.append(v)
+            return dict(form="exclude", dims=[keep], vecs=vecs, cancel=True)
+        form = "dims"
     if form == "int":
         d = draw(st.integers(0, N - 1))
         return dict(form=form, dims=d, vecs=[fl(draw, shape[d], vkind)])
